@@ -40,8 +40,12 @@ WfComb2(c) == /\ c.nm # ""
 
 EventOK ==
   LET e == Trace[i] IN
-  e.ev = "comb" =>
-    /\ WfComb2(e.ast)
-    /\ FCombV(e.ast, DefaultOpts, Bar) = e.fmt
-    /\ FCombV(e.ast, CanonicalOpts, Bar) = e.fmtc
+  /\ e.ev = "comb" =>
+        /\ WfComb2(e.ast)
+        /\ FCombV(e.ast, DefaultOpts, Bar) = e.fmt
+        /\ FCombV(e.ast, CanonicalOpts, Bar) = e.fmtc
+  /\ e.ev = "file" =>              \* a whole (repository) file
+        /\ \A k \in 1..Len(e.asts) : WfComb2(e.asts[k])
+        /\ FFileV(e.asts, DefaultOpts, Bar) = e.fmt
+        /\ FFileV(e.asts, CanonicalOpts, Bar) = e.fmtc
 =============================================================================
